@@ -16,6 +16,7 @@ PROPS = {
     "C19": P(),
     "C04": P(),
     "C17": P(race={"quick": True, "thorough": True}, shards={"quick": 5, "thorough": 10}, gomaxprocs=[4, 2, 8, 16, 3], shard_timeout={"quick": 900, "thorough": 3000}),
+    "C11": P(shard_timeout={"quick": 900, "thorough": 3000}),
     "C05": P(),
     "C06": P(),
     "C20": P(),
